@@ -4,7 +4,13 @@ generate programs + configurations -> real rewriter (driver) -> uniform trees ->
 validation with TraceStatic.tla -> per-property verdicts.  Results are cached per
 (driver binary, spec sources, seed, tier) so the six checks share one run."""
 import hashlib, json, os, random, sys, time
-import vlib, gen
+import vlib, gen, norm
+
+
+def add_fields(n):
+    """give a TLC-enumerated tree the fields every recorded node has"""
+    return {"t": n["t"], "v": n["v"], "a": n["a"], "id": 0, "n": 0, "l": 0, "k": 0, "el": 0, "ek": 0,
+            "c": [add_fields(c) for c in n["c"]]}
 
 FULL_CFG = {"localVarPrefix": "p", "telemetryVerbosity": "DEBUG", "csiMethods": [
     {"src": "plusOperator", "operator": True}, {"src": "tplOperator", "operator": True},
@@ -22,6 +28,31 @@ SUBSET_CFGS = [
 ]
 
 WANT = ["in_ast", "out_ast", "effective_config"]
+
+
+MC_CFGS = {
+    "full": {"localVarPrefix": "p", "telemetryVerbosity": "DEBUG", "csiMethods": [
+        {"src": "plusOperator", "operator": True}, {"src": "tplOperator", "operator": True}, {"src": "trim"},
+        {"src": "concat", "dst": "stringConcat"}, {"src": "aloneMethod", "allowedWithoutCallee": True}]},
+    "plusonly": {"localVarPrefix": "p", "telemetryVerbosity": "INFORMATION", "csiMethods": [
+        {"src": "plusOperator", "operator": True, "dst": "plus"}]},
+    "methods": {"localVarPrefix": "p", "telemetryVerbosity": "DEBUG", "csiMethods": [{"src": "trim"}, {"src": "concat"}]},
+}
+
+
+def model_cases(tier):
+    """programs enumerated by TLC from MC_Rewriter.tla (the design invariants are checked there on the model's
+    prediction); each is printed to JavaScript and replayed into the real rewriter"""
+    import printer
+    out, stats = [], {}
+    runs = [("full", 1), ("plusonly", 1), ("methods", 1)] if tier == "quick" else [("full", 2), ("plusonly", 2), ("methods", 2)]
+    for cfgname, depth in runs:
+        m = vlib.run_model("MC_Rewriter", "MC_Rewriter_%s_%d.cfg" % (cfgname, depth), workers=12, timeout=3000)
+        stats["MC_Rewriter_%s_%d" % (cfgname, depth)] = {"states": m["states"], "distinct": m["distinct"],
+                                                         "programs": len(m["replays"]), "wall": round(m["wall"], 1)}
+        for k, tree in enumerate(m["replays"]):
+            out.append({"name": "mc/%s/%d" % (cfgname, k), "code": printer.to_js(tree), "config": MC_CFGS[cfgname], "gen": tree})
+    return out, stats
 
 
 def cases(seed, tier):
@@ -174,7 +205,12 @@ def run(seed, tier, extra_cases=None, use_cache=True):
         vlib.log("static pipeline: cached result", key)
         return json.load(open(cache))
     t0 = time.time()
-    cs = extra_cases if extra_cases is not None else cases(seed, tier)
+    mstats = {}
+    if extra_cases is not None:
+        cs = extra_cases
+    else:
+        mc, mstats = model_cases(tier)          # TLC first (never concurrently with cargo / the driver pool)
+        cs = cases(seed, tier) + mc
     reqs = []
     for i, c in enumerate(cs):
         rq = {"id": str(i), "code": c["code"], "file": c.get("file", "/w/src/test.js"),
@@ -200,6 +236,11 @@ def run(seed, tier, extra_cases=None, use_cache=True):
         recs.append(rec)
         if "cfg" in rec:
             bycase[rid]["eff"] = rec["cfg"]
+        if "gen" in c and rec.get("outcome") == "ok" and "in" in rec:
+            rec["gen"] = norm.encode(add_fields(c["gen"]))
+            rec["has_gen"] = True
+        elif "in" in rec:
+            rec["has_gen"] = False
         if rec.get("status") == "modified":
             kind = "module" if rec["kind_in"] == "Module" else "script"
             v8jobs.append({"id": rid + "/in", "kind": kind, "code": c["code"]})
@@ -222,9 +263,13 @@ def run(seed, tier, extra_cases=None, use_cache=True):
     byprop = {}
     for rid, prop, v, detail in verdicts:
         byprop.setdefault(prop, []).append((rid, v, detail))
+    bad0 = [(rid, d) for rid, v, d in byprop.get("L0", []) if v == "toolerror"]
+    if bad0:
+        raise vlib.ToolError("pipeline self-check failed: a TLC-enumerated tree does not parse back from its printed text: %s | %s"
+                             % (bad0[0][1][:200], bycase[bad0[0][0]]["code"][:200]))
     res = {"verdicts": byprop, "cases": bycase, "stats": {
         "cases": len(cs), "records": len(recs), "outcomes": outcomes, "tlc_states": st["states"],
-        "tlc_distinct": st["distinct"], "v8_compiles": len(v8jobs), "wall": t4 - t0}}
+        "tlc_distinct": st["distinct"], "v8_compiles": len(v8jobs), "wall": t4 - t0, "models": mstats}}
     if extra_cases is None:
         os.makedirs(vlib.WORK, exist_ok=True)
         json.dump(res, open(cache, "w"))
